@@ -1002,7 +1002,9 @@ M("C13.sum_points_wrapping", ["C13"], "emitter/otlp/src/data/metrics.rs",
   """            NumberDataPointValue::AsInt(AsInt(current)) => current
                 .checked_add(value)
                 .map(|value| NumberDataPointValue::AsInt(AsInt(value)))
-                .unwrap_or(NumberDataPointValue::AsDouble(AsDouble(f64::INFINITY))),""",
+                .unwrap_or(NumberDataPointValue::AsDouble(AsDouble(
+                    current as f64 + value as f64,
+                ))),""",
   """            NumberDataPointValue::AsInt(AsInt(current)) => {
                 NumberDataPointValue::AsInt(AsInt(current.wrapping_add(value)))
             }""", "C13.R6:point-arithmetic")
